@@ -350,8 +350,8 @@ The plot use parameters :math:`m_0=0.7, m_{0,1}=m_{0,2}=0.1, m_{1,1}=m_{1,2}=0.3
                     l, abs(pi0 * self.d) ** 2
                 ) / Bprime_polynomial(l, abs(pi * self.d) ** 2)
                 m_rho_i = m_rho_i * bf
-            if self.cut_phsp:
-                m_rho_i = m_rho_i * sym.Heaviside(m - ma - mb)
+            # cut_phsp is not applied here: pole searches evaluate this
+            # expression at complex masses, where a step function is undefined
             rhos.append(m_rho_i)
         rho = self.im_sign * sum(rhos)
         re = delta_s + rho
